@@ -8,7 +8,7 @@ from ..framework import result, ihash, emu_verdict
 
 ID = "C02"
 LEVEL = "exploration"
-RUNS = {"quick": 2500, "thorough": 15000}
+RUNS = {"quick": 4000, "thorough": 15000}
 RULE = ("seeded programs that follow the documented protocol exactly (version check, proc init, thread init, require, CPUs, OHx, events stamped "
         "with ovni_clock_now() read immediately before each emit, OHe, flush, free, fini) over the real libovni; events the emulator accepts "
         "anywhere (OB. with any payload or as jumbo, marks of defined types, OU[ OU]); jumbo sizes up to the API maximum at every fill level, "
@@ -31,7 +31,7 @@ def gen(rng, tier, idx):
     nth = 2 if r.chance(20) else 1
     knobs = rtgen.base_knobs(rng.derive("knobs"))
     knobs["clock_mode"] = r.choice([3, 3, 1, 2])   # no hour-long jumps: the emulator refuses streams starting > 1 h apart
-    g = rtgen.Prog(r, nth, cap, knobs)
+    g = rtgen.Prog(r, nth, cap, knobs, stale_pct=8)
     cpus = [(i, i * 2) for i in range(r.randint(1, 3))]
     g.start(conformant=True, cpus=cpus)
     # 35%: threads also use other models; each thread requires exactly the models whose events it emits
